@@ -76,6 +76,7 @@ type JobWorld struct {
 	usedTx      map[common.Hash]bool
 	usedTxOrder []common.Hash
 	hooks       []func(*JobWorld, *world.BlockResult)
+	rotated     map[int]map[string]*world.EthKey // Byzantine key rotations: validator -> chain -> new key
 	// Granter has given a fee grant to Grantee, whose key may sign requests made in Granter's name
 	Granter, Grantee *world.Account
 	// Contracts are instances of the echo contract: principals with 32-byte addresses that create and run jobs through the wasm bindings
@@ -278,6 +279,21 @@ func (w *JobWorld) ContractExecuteJob(u *world.Account, c *Contract, id string, 
 	}
 }
 
+// ContractExecuteJobLegacy uses the legacy custom message format {"job_id":..,"payload":..} that older contracts send.
+func (w *JobWorld) ContractExecuteJobLegacy(u *world.Account, c *Contract, id string, payload []byte) {
+	if len(payload) == 0 {
+		// the legacy format has no way to say "no payload" (an absent one is executed as an empty caller payload - its
+		// emptiness check runs after the payload was wrapped into JSON and never fires; DESIGN 11.3): always supply one
+		payload = []byte{0x01, 0x02, 0x03, 0x04}
+	}
+	custom := map[string]any{"job_id": id, "payload": payload}
+	res := c.ExecuteVia(w.Sim, u, custom)
+	if res.Accepted() {
+		w.R.Stats.Probe("contract_legacy_message")
+		w.pending = append(w.pending, &jobOp{kind: "execute", user: u, via: c, jobID: id, payload: payload, rawIn: jobPayload(payload), tx: res.Tx})
+	}
+}
+
 func (w *JobWorld) ExecuteJob(u *world.Account, id string, payload []byte) {
 	var in []byte
 	if payload != nil {
@@ -428,7 +444,11 @@ func (w *JobWorld) RandomJobTraffic(maxOps int) {
 				if payload == nil && t.Draw(4) != 0 {
 					payload = t.Bytes(4 + t.Intn(36))
 				}
-				w.ContractExecuteJob(u, via, id, payload)
+				if t.Draw(3) == 2 {
+					w.ContractExecuteJobLegacy(u, via, id, payload)
+				} else {
+					w.ContractExecuteJob(u, via, id, payload)
+				}
 				continue
 			}
 			w.ExecuteJob(u, id, payload)
